@@ -279,3 +279,60 @@ def gen_chan_script(rng, mode, maxbody, stats=None, want=None, adapter_ok=False,
         for t in body: stats["body:" + t[0]] += 1
         for t in host: stats["host:" + t[0]] += 1
     return f"{mode} | {' '.join(decls)} | {' '.join(body)} | {' '.join(host)}"
+
+
+def gen_move_script(rng, mode, stats=None):
+    """Directed schedules for C18 (cabi modes, two harness tasks): on ONE operation combine
+      block/register  x  partial progress that keeps it pending (subtask STARTING -> STARTED event; stream and
+      future operations have no non-final event code: they stay in progress only on the start intrinsic's
+      BLOCKED)  x  re-registration with the same task  x  later poll / drop under the OTHER task (also back and
+      forth)  x  completion / cancel (all three host answers) / plain drop / task cancel afterwards.
+    Body and host directives are generated in lock step: every `w` gets exactly the directives that end in the
+    delivery meant for it, so the schedule really happens (a script from gen_subtask_script reaches such a
+    combination only by luck)."""
+    ncalls = rng.choice([1, 1, 2])
+    specs, body, host = [], [], []
+    cur = 1
+    st = {}                                   # per created call: status the guest knows (0 starting, 1 started)
+    for k in range(ncalls):
+        size, alog, roff = rng.choice([(16, 3, 8), (0, 0, 0), (24, 3, 16)])
+        start = rng.choice([0, 0, 0, 1])
+        specs.append(f"C{size}:{alog}:{roff}:{rng.choice([0,1])}:{rng.choice([0,1])}:{rng.choice([0,1])}:{start}:{rng.choice([0,1,2])}")
+    tags = []
+    def other(): return 2 if cur == 1 else 1
+    for k in range(ncalls):
+        body += [f"c{k}", f"p{k}"]
+        st[k] = int(specs[k].split(":")[6])
+    steps = rng.randint(2, 7)
+    for _ in range(steps):
+        live = [k for k in st]
+        if not live: break
+        k = rng.choice(live)
+        r = rng.random()
+        if r < 0.30 and st[k] == 0:
+            # partial progress: STARTED is delivered while the body is suspended; the op stays in progress
+            body.append("w"); host += [f"A{k}:1", f"D{k}"]; st[k] = 1; tags.append("progress")
+            if rng.random() < 0.8:
+                body.append(f"p{k}"); tags.append("re-register-same-task")
+        elif r < 0.65:
+            cur = other(); body.append(f"t{cur}"); tags.append("move")
+            r2 = rng.random()
+            if r2 < 0.7: body.append(f"p{k}")
+            elif r2 < 0.85:
+                body.append(f"d{k}"); del st[k]; tags.append("drop-under-other-task")
+        elif r < 0.80:
+            body.append("w"); host += [f"A{k}:2", f"D{k}"]; tags.append("complete")
+            body.append(rng.choice([f"p{k}", f"a{k}"])); del st[k]
+        elif r < 0.90:
+            body.append(f"d{k}"); del st[k]; tags.append("drop")
+        else:
+            body.append(f"p{k}")
+    if st and rng.random() < 0.5:
+        body.append("w"); tags.append("task-cancel")          # no directive left: the host cancels the task
+    if stats is not None:
+        stats["mode:" + mode] += 1
+        stats["directed"] += 1
+        for t in set(tags): stats["directed:" + t] += 1
+        if "progress" in tags and "move" in tags and tags.index("progress") < len(tags) - 1 - tags[::-1].index("move"):
+            stats["directed:progress-then-move"] += 1
+    return f"{mode} | {' '.join(specs)} | {' '.join(body)} | {' '.join(host)}"
